@@ -229,8 +229,25 @@ def frame_pool():
         ("rtcm1", rtcm(b"x")),
         ("rtcm0", rtcm(b"")),                     # zero-length RTCM3
         ("rtcm0bad", b"\xd3\x00\x00\x00\x00\x00"),
-        ("rtcmbig", rtcm(bytes.fromhex("3ed00003") + bytes(260))),   # size needs both length bytes
+        ("rtcmbig", rtcm(bytes.fromhex("3ed00003") + bytes(260))),   # size needs both length bytes (d3 01)
+        ("rtcm600", rtcm(bytes.fromhex("3ed00003") + bytes(596))),   # d3 02
+        ("rtcm800", rtcm(bytes.fromhex("43200000") + bytes(796))),   # d3 03
+        ("rtcmmax", rtcm(bytes.fromhex("3ed00003") + bytes(1019))),  # d3 03 ff: the largest frame
+        ("nmeaA", nmea(b"IVDM,1,1,,A,13u?etPv2;0n:dDPwUM1U1Cb069D,0", talker=b"A")),
     ]
+
+
+def is_preamble2(raw):
+    """independent statement of 'begins with a UBX, NMEA or RTCM3 preamble'"""
+    if len(raw) < 2:
+        return False
+    if raw[0] == 0xb5:
+        return raw[1] == 0x62
+    if raw[0] == 0x24:
+        return raw[0:2] in NMEA_HDR
+    if raw[0] == 0xd3:
+        return raw[1] < 4
+    return False
 
 
 def noise(rng, n=None):
